@@ -130,6 +130,89 @@ pub fn check(q: &EllQ, listed_kf1: bool, part: &mut Part) -> V {
   V::Ok
 }
 
+/// Deep tier (depth > 5): same clauses, the coverage is searched through its ranges and the
+/// circular case uses points of the cone hashed at the query depth (as the deep tier of C05).
+pub fn check_deep(q: &EllQ, listed_kf1: bool, part: &mut Part) -> V {
+  let bad = |kind: &str, expected: String, actual: String| V::Bad(Viol { api: q.api().into(), kind: kind.into(), case: q.to_json(), expected, actual });
+  let out = match q.run() {
+    Ok(o) => o,
+    Err(m) => return bad("panic", "a coverage".into(), format!("panic: {}", m)),
+  };
+  part.outcome(hash64(&[out.entries.len() as u64, q.depth as u64, out.entries.first().map(|e| e.1).unwrap_or(0)]));
+  let map = match out.to_map() {
+    Ok(m) => m,
+    Err(e) => return bad("malformed-result", "a valid BMOC".into(), format!("{} ({})", out.describe(), e)),
+  };
+  if out.depth_max != q.depth {
+    return bad("wrong-depth-max", format!("depth_max {}", q.depth), out.describe());
+  }
+  part.validated += 1;
+  let covered = |h: u64| -> bool {
+    let rs = &map.ranges;
+    let idx = rs.partition_point(|r| r.1 <= h);
+    idx < rs.len() && rs[idx].0 <= h
+  };
+  let (d, lon, lat) = (q.depth, q.lon, q.lat);
+  let (x, y) = ref_proj(lon, lat);
+  if let Ok(hc) = guarded(move || nested::hash(d, lon, lat)) {
+    if hc < n_hash(d) && !covered(hc) {
+      let mut ok = false;
+      if outside(d, hc, x, y) >= -1e-12 {
+        for (_, nb) in ref_neighbours(d, hc) {
+          if covered(nb) && outside(d, nb, x, y) <= TOL_PLANE {
+            ok = true;
+          }
+        }
+      }
+      if !ok {
+        return bad("centre-cell-missing", format!("cell {}/{} of the ellipse centre in the coverage", d, hc), out.describe());
+      }
+    }
+  }
+  let c = unit_vec(q.lon, q.lat);
+  for &(de, h, _) in out.entries.iter().take(4000) {
+    let limit = q.a + 2.0 * max_c2v(de) + 1e-9;
+    let (xc, yc) = center_plane(de, h);
+    let (l, b) = ref_unproj(xc, yc);
+    let a = ang_dist_vec(&unit_vec(l, b), &c);
+    if a > limit {
+      return bad("not-tight", format!("every cell centre within a + 2 * {:e} = {:e} of the ellipse centre", max_c2v(de), limit), format!("cell {}/{} has its centre at {:e}", de, h, a));
+    }
+  }
+  if q.b == q.a {
+    let margin = if q.a >= 1e-6 { 1e-9 } else { 1e-3 * q.a };
+    let mut known: Option<Value> = None;
+    for k in 0..24 {
+      let bearing = k as f64 * (TWO_PI / 24.0) + 0.05;
+      for f in [0.0, 0.3, 0.7, 1.0 - 1e-6] {
+        let (l, b) = destination(q.lon, q.lat, bearing, q.a * f);
+        let h = match guarded(move || nested::hash(d, l, b)) {
+          Ok(h) if h < n_hash(d) => h,
+          _ => continue,
+        };
+        part.validated += 1;
+        if !covered(h) {
+          let a = ang_dist(q.lon, q.lat, l, b);
+          let (px, py) = ref_proj(l, b);
+          if a <= q.a - margin && outside(d, h, px, py) <= TOL_PLANE {
+            let mut case = q.to_json();
+            case["missed_cell"] = json!(h.to_string());
+            if listed_kf1 && kf1_matches(q.lon, q.lat, q.a, d, h) {
+              known = Some(case);
+              continue;
+            }
+            return V::Bad(Viol { api: q.api().into(), kind: "miss".into(), case, expected: format!("cell {}/{} in the coverage of the circular cone: it contains ({:e}, {:e}) at {:e} rad from the centre (a = {:e})", d, h, l, b, a, q.a), actual: out.describe() });
+          }
+        }
+      }
+    }
+    if let Some(k) = known {
+      return V::Known(k);
+    }
+  }
+  V::Ok
+}
+
 pub fn run(ctx: &Ctx) -> i32 {
   let quick = ctx.quick();
   let listed_kf1 = ctx.findings.listed("C13", KF1);
@@ -192,6 +275,43 @@ pub fn run(ctx: &Ctx) -> i32 {
     }
     part
   });
+  // deep tier: ellipses a fraction of a cell to a few tens of cells across, mid and large depths
+  let deep_depths: Vec<u8> = if quick { vec![9, 14, 22] } else { vec![7, 9, 11, 14, 17, 20, 22, 25, 29] };
+  let djobs: Vec<(u8, usize)> = deep_depths.iter().flat_map(|&d| (0..cs.len()).map(move |ci| (d, ci))).collect();
+  let deep_part = par_jobs(djobs.len(), |j| {
+    let (d, ci) = djobs[j];
+    let (lon, lat) = cs[ci];
+    let mut part = Part::new();
+    if ctx.over_budget() {
+      part.caps.push(format!("wall budget {}s reached in C13 deep enumeration", ctx.budget_s));
+      return part;
+    }
+    let cell = PI / 3.0f64.sqrt() / (1u64 << d) as f64;
+    for &k in &[0.3, 2.0, 9.0, 31.0] {
+      let a = k * cell;
+      for &ratio in &[1.0, 0.3] {
+        for &pa in &[0.0, 2.1] {
+          if ratio == 1.0 && pa != 0.0 {
+            continue;
+          }
+          for &delta in &[0u8, 1] {
+            if d + delta > 29 {
+              continue;
+            }
+            let q = EllQ { depth: d, delta, lon, lat, a, b: a * ratio, pa };
+            part.stratum(if ratio == 1.0 { "deep-circular" } else { "deep-eccentric" }, 1, 1);
+            match check_deep(&q, listed_kf1, &mut part) {
+              V::Ok => {}
+              V::Known(ex) => part.known(KF1, ex),
+              V::Bad(v) => part.viol(v),
+            }
+          }
+        }
+      }
+    }
+    part
+  });
+  total.merge(deep_part);
   // rejection of a >= pi/2
   for a in [HALF_PI, 1.6, 2.0, 3.0] {
     for delta in [0u8, 1] {
@@ -214,7 +334,8 @@ pub fn run(ctx: &Ctx) -> i32 {
 
 pub fn replay(case: &Value, findings: &Findings) -> Option<Viol> {
   let q = EllQ::from_json(case);
-  match check(&q, findings.listed("C13", KF1), &mut Part::new()) {
+  let r = if q.depth <= 5 { check(&q, findings.listed("C13", KF1), &mut Part::new()) } else { check_deep(&q, findings.listed("C13", KF1), &mut Part::new()) };
+  match r {
     V::Bad(v) => Some(v),
     _ => None,
   }
